@@ -35,6 +35,8 @@ func runC18(x *Ctx) {
 	x.C.Rule("C18.R1", "no error of a stream-related call is dropped in the stream-handling code", 40)
 	x.C.Rule("C18.R2", "ldRead: unexpected EOF inside a section is not a clean end", 4)
 	x.C.Rule("C18.R3", "CIDReader latches read errors; CID() reports them", 3)
+	x.C.Rule("C18.R4", "stream code shares no pooled state that outlives a call", 2)
+	x.poolDiscipline("C18.R4", "token/internal/envelope", "token", "token/delegation", "token/invocation")
 
 	S := ioFunctionSet(x)
 	x.C.Extra["stream_functions"] = len(S)
